@@ -27,8 +27,8 @@ CONFIG = {'gen': ['SmbCommands'],
                'order, length dependencies; no field changed after it is emitted; offset reset between blocks; lengths read before their '
                'buffers; guards no larger than the reads they protect; every declared field on the wire; for the AndX commands the AndX '
                'block read from the head of the parameter stream and exactly its four bytes cut off before the first field: andx_consumed) '
-               'and that the structural round-trip defects are exactly the 3 recorded ones (non_mirror_commands, known_roundtrip_findings, '
-               'command_count; thirteen more were repaired in the repository, fixes/C04-*.diff, and left the list). A nested value decoded '
+               'and that the structural round-trip defects are exactly the 2 recorded ones (non_mirror_commands, known_roundtrip_findings, '
+               'command_count; fourteen more were repaired in the repository, fixes/C04-*.diff, and left the list). A nested value decoded '
                'from the whole block right behind offset = 0 is read in the normal form blk[offset:] (normWhole; go_normWhole: the run is '
                'the same). The generic soundness theorem is proved for all field values: mirror_roundtrip (Mirror c -> LawfulCodecs C T -> '
                'consistent C c v -> decodeCmd (encodeCmd v) = ok d with every declared field, and the AndX block of an AndX command, equal '
@@ -49,9 +49,9 @@ CONFIG = {'gen': ['SmbCommands'],
                'TransactionRequest, WriteAndCloseRequest, WriteAndxRequest, WriteMpxRequest, WriteRawRequest; mirror_loops_extends; '
                'mirror_loops_types_lawful). For the 5 commands outside (non_mirror_loops_commands: FindResponse / FindUniqueResponse with '
                'the recorded 43-byte window, NegotiateRequest — Dialects reads to the end of its input; proved for this one program with the statement of mirror_loops_roundtrip: negotiate_request_roundtrip, Props/C04/Direct.lean —, NegotiateResponse — '
-               'null-terminated strings —, WriteRequest — recorded finding field-ahead-of-blocks: Marshal puts the marshalled Data ahead of the parameter block; write_request_never_decodes proves for every field value that Unmarshal rejects the result; consistent no longer asks that nothing precede the parameter block, so the oracle reports it —) the round trip is decided by the '
-               'correspondence runs only. slot_locality reads the layout through layoutZ (literal terminator bytes in the data block '
-               'passed over, a range loop over an integer array one slot of variable width), 224 command/field pairs.',
+               'null-terminated strings —, WriteRequest — repaired: Marshal put the marshalled Data ahead of the parameter block, which consistent used to hide by asking that nothing precede it (fixes/C04-writerequest-data-block.diff); Unmarshal decodes Data with error and count dropped behind a guard the type does not size; proved for this one program: write_request_roundtrip —) only NegotiateResponse and the two recorded findings rest on the '
+               'correspondence runs alone. slot_locality reads the layout through layoutZ (literal terminator bytes in the data block '
+               'passed over, a range loop over an integer array one slot of variable width), 228 command/field pairs.',
  'level_note': 'Trusted: Lean kernel; axioms propext, Classical.choice, Quot.sound; the extractor and the IR semantics are tied to the Go '
                'code by differential testing (bounded); C06 models of nested types; known findings are recognised by Lean predicates on '
                'the extracted programs, one key per command.'}
